@@ -5,6 +5,7 @@ import (
 	"fmt"
 	"strings"
 	"testing"
+	"testing/synctest"
 	"time"
 
 	"github.com/elastic/go-libaudit/v2/auparse"
@@ -336,6 +337,36 @@ func runC15(t *testing.T, run *mc.Run) int {
 	})
 	if badpid != "" {
 		viol("bad-pid", nil, "LOGIN record with pid=abc", badpid)
+	}
+	// two deliveries in flight at once: a one-shot write failure is reported by the parser goroutine while
+	// the Read goroutine is busy handing a login to the correlator (blocked on the tracker, not parked in its
+	// select). The failure must still stop the processor.
+	n++
+	var busy string
+	bubble(t, func() {
+		r := startRead(0)
+		defer r.stop()
+		r.offerLogin(mkLogin(bindPID, "1"))
+		gate := make(chan error)
+		r.w.gate = gate
+		r.offerLine(bindLines("7") + "\n") // the LOGIN record is being written: the parser goroutine waits inside the correlator
+		if r.w.gate != nil {
+			busy = "harness: the binding LOGIN record was not written"
+			return
+		}
+		r.offerLogin(mkLogin(5555, "2")) // Read takes it and now waits for the correlator
+		gate <- errInjected              // the write fails (once)
+		synctest.Wait()
+		vsleep(3e9)
+		switch {
+		case !r.returned:
+			busy = "a write failure reported while Read was busy handling a login was dropped: the audit processor keeps running"
+		case !errors.Is(r.ret, errInjected):
+			busy = fmt.Sprintf("returned %v, want an error wrapping the write failure", r.ret)
+		}
+	})
+	if busy != "" {
+		viol("failure-while-read-busy", nil, "write failure while a login is in flight", busy)
 	}
 	// observation (not judged): a blank record arrives from the pipe as "\n"
 	var blank string
